@@ -1,4 +1,4 @@
-/- line-protocol driver for C14.  file state: a | p<step> | c<step> -/
+/- line-protocol driver for C14.  file state: a | p<step> | c<step>; directory F/B/T -/
 import RenoVerif.Model.DumpProto
 open RenoVerif.Dump
 
@@ -10,18 +10,18 @@ def parseF (s : String) : Option FileSt :=
 
 def fStr : FileSt → String
   | .absent => "a" | .part k => s!"p{k}" | .complete k => s!"c{k}"
-def dStr (d : Dir) : String := fStr d.f ++ "/" ++ fStr d.b
+def dStr (d : Dir) : String := fStr d.f ++ "/" ++ fStr d.b ++ "/" ++ fStr d.t
 
 def step (line : String) : String :=
   match line.trimAscii.toString.splitOn " " with
-  | ["run", n, k0, f, b] => match n.toNat?, k0.toNat?, parseF f, parseF b with
-    | some n, some k0, some f, some b =>
-      " ".intercalate ((runTrace n k0 ⟨f, b⟩).map fun p => s!"{p.1}:{dStr p.2}")
+  | ["run", n, k0, f, b, t] => match n.toNat?, k0.toNat?, parseF f, parseF b, parseF t with
+    | some n, some k0, some f, some b, some t =>
+      " ".intercalate ((runTrace n k0 ⟨f, b, t⟩).map fun p => s!"{p.1}:{dStr p.2}")
+    | _, _, _, _, _ => "bad-op"
+  | ["ops", k, f, b, t] => match k.toNat?, parseF f, parseF b, parseF t with
+    | some k, some f, some b, some t => " ".intercalate ((dumpOps k ⟨f, b, t⟩).map fun
+        | .removeB => "removeB" | .replaceTF => "replaceTF" | .savezCreate _ => "savezCreate" | .savezFinish _ => "savezFinish")
     | _, _, _, _ => "bad-op"
-  | ["ops", k, f, b] => match k.toNat?, parseF f, parseF b with
-    | some k, some f, some b => " ".intercalate ((dumpOps k ⟨f, b⟩).map fun
-        | .removeB => "removeB" | .renameFB => "renameFB" | .savezCreate _ => "savezCreate" | .savezFinish _ => "savezFinish")
-    | _, _, _ => "bad-op"
   | _ => "bad-op"
 
 partial def loop (h : IO.FS.Stream) : IO Unit := do
